@@ -22,6 +22,16 @@ ASSUME = [
     "no crypto), reply entity parsing (well-formed replies of the request's kind only: a reply shaped for "
     "another kind is outside the domain), GIL-level atomicity of __ID_GEN += 1 (single-threaded histories only)",
     "the keep-alive ping thread is not started; its request path (YowIqProtocolLayer.sendIq(ping)) is driven directly",
+    "deliveries from inside a send (reply read by the reader thread while the sender is still inside toLower): "
+    "modelled as the `sync` list of a request op (all theorems quantify over them); driven on the real stack by a "
+    "bottom recorder that hands the scripted stanzas upward from inside its send() -- the deterministic single-"
+    "thread equivalent.  Not driven on the real stack (model/theorems only): nested deliveries whose processing "
+    "sends down again (a retry issued by the callback, the pong to a server ping, the group-info success closure "
+    "sending the message) -- YowLayer.toLower holds a non-reentrant lock, a second thread would simply wait there "
+    "until the outer send has returned",
+    "tie 1 also reads the order `iqRegistry[id] = ...` before `toLower(...)` of both _sendIq functions "
+    "(register_before_send; behavioural probe with a registry-inspecting lower layer when the source shape is not "
+    "recognised)",
 ]
 
 A, L, T, S = None, None, None, None   # filled from the rig module after env.setup()
@@ -34,16 +44,41 @@ def _rig():
 
 # ---------------------------------------------------------------- encoding for the model
 
+def enc_sync(R, sync):
+    return [[d[0], R.ITYPES.index(d[1]), R.SHAPES.index(d[2])] for d in sync]
+
+
 def enc_op(R, op):
     if op[0] == "app":
         rt = [int(x) for x in op[4:7]] + [0, 0, 0]
         return [0, R.AKINDS.index(op[1]), int(bool(op[2])), int(bool(op[3])),
-                int(bool(rt[0])), int(bool(rt[1])), rt[2]]
+                int(bool(rt[0])), int(bool(rt[1])), rt[2], enc_sync(R, R.op_sync(op))]
     if op[0] == "lib":
-        return [1, R.LKINDS.index(op[1])]
+        return [1, R.LKINDS.index(op[1]), enc_sync(R, R.op_sync(op))]
     if op[0] == "dlv":
         return [2, op[1], R.ITYPES.index(op[2]), R.SHAPES.index(op[3])]
     return [3, op[2]]
+
+
+def expand(R, history):
+    """the sequential reading: [(position of the op in the history, op or nested delivery as a dlv op)]"""
+    out = []
+    for p, op in enumerate(history):
+        out.append((p, op))
+        for d in R.op_sync(op):
+            out.append((p, ["dlv", d[0], d[1], d[2]]))
+    return out
+
+
+def after_request(R, history, p):
+    """what follows request op p in the sequential reading (its own nested deliveries first)"""
+    ex = expand(R, history)
+    i = [j for j, (q, o) in enumerate(ex) if q == p][0]
+    return ex[i + 1:]
+
+
+def has_sync(R, history):
+    return any(R.op_sync(o) for o in history)
 
 
 def dec_events(R, evs):
@@ -84,8 +119,8 @@ def canon_impl(history, events):
     return out
 
 
-def run_impl(R, history):
-    rig = R.Rig()
+def run_impl(R, history, reader_thread=False):
+    rig = R.Rig(reader_thread=reader_thread)
     try:
         events = rig.run(history)
     except Exception as e:   # harness-level failure (a request could not even be issued)
@@ -103,9 +138,9 @@ LIB_EXPECT = {"fetch_ctl": (True, True), "fetch_send": (True, True), "fetch_recv
               "keyupload": (True, True), "groupinfo": (True, None)}
 
 
-def nonreply_before_first(history, p, mid):
+def nonreply_before_first(R, history, p, mid):
     """a get/set iq carrying id mid is delivered after request p and before the first reply to mid"""
-    for o in history[p + 1:]:
+    for _, o in after_request(R, history, p):
         if o[0] == "dlv" and o[1] == mid:
             if o[2] in ("get", "set"):
                 return True
@@ -113,25 +148,27 @@ def nonreply_before_first(history, p, mid):
     return False
 
 
-def expected_app_callbacks(history, p, mid):
-    """the property, with retries: every issue / re-issue of the id gets exactly the callback of the
-    first result/error reply after THAT issue (a re-issue happens inside the callback that retries)"""
+def expected_app_callbacks(R, history, p, mid):
+    """the property, with retries and with deliveries from inside sends: every issue / re-issue of the id gets
+    exactly the callback of the first result/error reply after THAT issue (a re-issue happens inside the callback
+    that retries), and it gets it WHEN that reply is delivered.
+    -> ([[op position, event], ...], still outstanding at the end?)"""
     op = history[p]
     hs, he = bool(op[2]), bool(op[3])
     rs, re_, left = ([int(x) for x in op[4:7]] + [0, 0, 0])[:3]
     want, armed = [], True
-    for o in history[p + 1:]:
+    for q, o in after_request(R, history, p):
         if not armed:
             break
         if o[0] == "dlv" and o[1] == mid and o[2] in ("result", "error"):
             armed = False
             which = "success" if o[2] == "result" else "error"
             if (which == "success" and hs) or (which == "error" and he):
-                want.append(["appcb", mid, which, mid, o[2]])
+                want.append([q, ["appcb", mid, which, mid, o[2]]])
                 if (rs if which == "success" else re_) and left > 0:
                     left -= 1
                     armed = True
-    return want
+    return want, armed
 
 
 def oracle(R, history, impl):
@@ -140,6 +177,7 @@ def oracle(R, history, impl):
         return [("harness-error", None, impl["error"])]
     fails = []
     evs = impl["events"]
+    regs = impl.get("regs", {})
     issued = {}      # mid -> (position, op)
     for p, (op, ev) in enumerate(zip(history, evs)):
         if op[0] in ("app", "lib"):
@@ -151,52 +189,82 @@ def oracle(R, history, impl):
             if ids[0] in issued:
                 fails.append(("id-repeated", None, {"id": ids[0], "pos": p}))
             issued[ids[0]] = (p, op)
-            in_dom = True
-            if in_dom and (len(sent) != 1 or sent[0][1] != ids[0]):
+            # its stanza goes down once (more often only when a callback running inside the send retries)
+            bad = not sent or sent[0][1] != ids[0] or ev[1:2] != [sent[0]] or \
+                (not R.op_sync(op) and len(sent) != 1)
+            if bad:
                 fails.append(("request-not-sent-once", None, {"pos": p, "op": op, "events": ev}))
+    where = {name: ids for name, ids in regs.items()}
     for mid, (p, op) in sorted(issued.items()):
-        first = None
-        for q in range(p + 1, len(history)):
-            o = history[q]
+        first = first_at = None
+        for q, o in after_request(R, history, p):
             if o[0] == "dlv" and o[1] == mid and o[2] in ("result", "error"):
-                first = o[2]
+                first, first_at = o[2], q
                 break
         want_w = {"result": "success", "error": "error", None: None}[first]
+        registered_in = sorted(name for name, ids in where.items() if mid in ids)
         if op[0] == "app":
             if op[1] not in R.IN_DOMAIN:
                 continue
-            got = [e for ev in evs for e in ev if e[0] == "appcb" and (e[1] == mid or e[3] == mid)]
-            want = expected_app_callbacks(history, p, mid)
+            got = [[q, e] for q, ev in enumerate(evs) for e in ev
+                   if e[0] == "appcb" and (e[1] == mid or e[3] == mid)]
+            want, outstanding = expected_app_callbacks(R, history, p, mid)
             if got != want:
                 key = None
-                if nonreply_before_first(history, p, mid):
+                if nonreply_before_first(R, history, p, mid):
                     key = "nonreply-iq-with-pending-id-consumes-registration"
-                elif first == "error" and not any(e[2] == "error" for e in got):
+                elif first == "error" and not any(e[2] == "error" for _, e in got):
                     key = "%s:error-reply-reaches-no-callback" % op[1]
-                elif len(op) > 4 and len(got) < len(want) and got == want[:len(got)]:
+                elif any(int(x) for x in op[4:7]) and len(got) < len(want) and got == want[:len(got)]:
                     key = "retry-from-callback:reply-to-the-retry-reaches-no-callback"
+                what = "callbacks (op position, event) differ"
+                if [e for _, e in got] == [e for _, e in want]:
+                    what = "the right callbacks, but fired by another delivery than the first reply (a replay)"
+                elif first_at == p and not [1 for q, _ in got if q == p]:
+                    what = "the reply delivered while the request was being handed down invoked no callback"
                 fails.append(("app-callbacks", key, {"id": mid, "kind": op[1], "first_reply": first,
+                                                     "first_reply_during_op": first_at, "what": what,
                                                      "expected": want, "observed": got}))
+            elif not outstanding and registered_in:
+                fails.append(("stale-registry-entry", None,
+                              {"id": mid, "kind": op[1], "first_reply": first, "first_reply_during_op": first_at,
+                               "still_registered_in": registered_in,
+                               "what": "the request was answered but its id is still registered"}))
+            elif outstanding and "app" not in registered_in:
+                fails.append(("outstanding-request-not-registered", None,
+                              {"id": mid, "kind": op[1], "registered_in": registered_in}))
         elif op[1] in LIB_EXPECT:
             hs, he = LIB_EXPECT[op[1]]
-            got = [e for ev in evs[p + 1:] for e in ev if e[0] == "libcb" and e[3] == mid]
+            got = [[q, e] for q, ev in enumerate(evs) for e in ev if e[0] == "libcb" and e[3] == mid]
             want = []
             if want_w == "success" and hs:
-                want = [["libcb", op[1], "success", mid]]
+                want = [[first_at, ["libcb", op[1], "success", mid]]]
             elif want_w == "error" and he:
-                want = [["libcb", op[1], "error", mid]]
+                want = [[first_at, ["libcb", op[1], "error", mid]]]
             if got != want:
                 key = None
-                if nonreply_before_first(history, p, mid):
+                if nonreply_before_first(R, history, p, mid):
                     key = "nonreply-iq-with-pending-id-consumes-registration"
                 fails.append(("lib-callbacks", key, {"id": mid, "kind": op[1], "first_reply": first,
+                                                     "first_reply_during_op": first_at,
                                                      "expected": want, "observed": got}))
+            elif first and registered_in:
+                fails.append(("stale-registry-entry", None,
+                              {"id": mid, "kind": op[1], "first_reply": first, "first_reply_during_op": first_at,
+                               "still_registered_in": registered_in,
+                               "what": "the request was answered but its id is still registered"}))
         else:   # keep-alive ping: its callbacks forward the reply upward, once
-            got = [e for ev in evs[p + 1:] for e in ev if e[0] == "iface" and e[1] == mid]
-            want = [["iface", mid, first]] if first else []
+            got = [[q, e] for q, ev in enumerate(evs) for e in ev if q >= p and e[0] == "iface" and e[1] == mid]
+            want = [[first_at, ["iface", mid, first]]] if first else []
             if got != want:
                 fails.append(("libping-forwarding", "ping:error-reply-reaches-no-callback" if first == "error" else None,
-                              {"id": mid, "first_reply": first, "expected": want, "observed": got}))
+                              {"id": mid, "first_reply": first, "first_reply_during_op": first_at,
+                               "expected": want, "observed": got}))
+            elif first and registered_in:
+                fails.append(("stale-registry-entry", None,
+                              {"id": mid, "kind": op[1], "first_reply": first, "first_reply_during_op": first_at,
+                               "still_registered_in": registered_in,
+                               "what": "the keep-alive ping was answered but its id is still registered"}))
     # callbacks for ids nobody issued; unexpected exceptions
     for p, ev in enumerate(evs):
         for e in ev:
@@ -211,13 +279,22 @@ def oracle(R, history, impl):
 
 # ---------------------------------------------------------------- shrinking
 
+def with_sync(R, op, sync):
+    if op[0] == "app":
+        return (list(op[:7]) + [0, 0, 0])[:7] + [sync] if sync or len(op) > 7 else list(op)
+    return [op[0], op[1], sync] if sync or len(op) > 2 else list(op)
+
+
 def drop_op(R, history, idx):
-    """history without op idx; dropping a request also drops the deliveries of its id and
-    renumbers later ids (ids are handed out consecutively)"""
+    """history without op idx; dropping a request also drops the deliveries of its id (nested ones included)
+    and renumbers later ids (ids are handed out consecutively)"""
     op = history[idx]
     if op[0] not in ("app", "lib"):
         return history[:idx] + history[idx + 1:]
     m = 1 + sum(1 for o in history[:idx] if o[0] in ("app", "lib"))
+
+    def ren(i):
+        return i - 1 if m < i < R.FOREIGN else i
     out = []
     for j, o in enumerate(history):
         if j == idx:
@@ -225,12 +302,27 @@ def drop_op(R, history, idx):
         if o[0] == "dlv":
             if o[1] == m:
                 continue
-            out.append(["dlv", o[1] - 1 if m < o[1] < R.FOREIGN else o[1], o[2], o[3]])
+            out.append(["dlv", ren(o[1]), o[2], o[3]])
         elif o[0] == "oth":
-            out.append(["oth", o[1], o[2] - 1 if m < o[2] < R.FOREIGN else o[2]])
+            out.append(["oth", o[1], ren(o[2])])
+        elif R.op_sync(o):
+            out.append(with_sync(R, o, [[ren(d[0]), d[1], d[2]] for d in R.op_sync(o) if d[0] != m]))
         else:
             out.append(o)
     return out
+
+
+def candidates(R, cur):
+    """smaller / simpler histories: without one op; without one nested delivery; with the nested deliveries
+    of one request delivered AFTER its send has returned instead"""
+    for idx in range(len(cur) - 1, -1, -1):
+        yield drop_op(R, cur, idx)
+    for idx in range(len(cur) - 1, -1, -1):
+        sync = R.op_sync(cur[idx])
+        for j in range(len(sync) - 1, -1, -1):
+            yield cur[:idx] + [with_sync(R, cur[idx], sync[:j] + sync[j + 1:])] + cur[idx + 1:]
+        if sync:
+            yield cur[:idx] + [with_sync(R, cur[idx], [])] + [["dlv", d[0], d[1], d[2]] for d in sync] + cur[idx + 1:]
 
 
 def shrink(R, history, still_fails, budget=200):
@@ -238,33 +330,120 @@ def shrink(R, history, still_fails, budget=200):
     changed = True
     while changed and budget > 0:
         changed = False
-        for idx in range(len(cur) - 1, -1, -1):
-            cand = drop_op(R, cur, idx)
+        for cand in candidates(R, cur):
             budget -= 1
-            if cand and still_fails(cand):
+            if cand and cand != cur and still_fails(cand):
                 cur, changed = cand, True
                 break
             if budget <= 0:
                 break
-    return cur
+    # normal form: no empty sync lists
+    return [with_sync(R, o, []) [:7 if o[0] == "app" else 2] if o[0] in ("app", "lib") and not R.op_sync(o) and
+            len(o) > (7 if o[0] == "app" else 2) else o for o in cur]
 
 
 # ---------------------------------------------------------------- generators
 
+OWN = 0   # placeholder id in a sync list: "the id this request gets"
+
+
 def well_shaped(R, history):
-    """set the shape of replies to already-issued ids to the shape of the request's kind"""
+    """resolve OWN in sync lists; set the shape of replies to already-issued ids (the request's own id
+    included, for its nested deliveries) to the shape of the request's kind"""
     kinds, out = {}, []
     n = 0
+
+    def shaped(mid, typ, shape):
+        if mid in kinds and typ in ("result", "error"):
+            return R.shape_of(kinds[mid])
+        return shape
     for op in history:
         if op[0] in ("app", "lib"):
             n += 1
             kinds[n] = op[1]
+            sync = R.op_sync(op)
+            if sync:
+                sync = [[n if d[0] == OWN else d[0], d[1], d[2]] for d in sync]
+                op = with_sync(R, op, [[d[0], d[1], shaped(*d)] for d in sync])
             out.append(op)
-        elif op[0] == "dlv" and op[1] in kinds and op[2] in ("result", "error"):
-            out.append(["dlv", op[1], op[2], R.shape_of(kinds[op[1]])])
+        elif op[0] == "dlv":
+            out.append(["dlv", op[1], op[2], shaped(op[1], op[2], op[3])])
         else:
             out.append(op)
     return out
+
+
+def sends_when_processed(kind, typ):
+    """replies whose processing sends a stanza down again (cannot be delivered from inside a send on the real
+    stack: toLower's lock is not re-entrant): the group-info success closure sends the original message"""
+    return kind == "groupinfo" and typ == "result"
+
+
+def drivable(R, history):
+    """can every nested delivery of the history be made from inside a send on the REAL stack?  Not if its
+    processing sends down again (pong to a server ping, group-info success, a callback that retries)."""
+    reqs, n = {}, 0
+    for op in history:
+        if op[0] in ("app", "lib"):
+            n += 1
+            reqs[n] = op
+        for mid, typ, shape in R.op_sync(op):
+            if shape == "sping":
+                return False
+            rq = reqs.get(mid)
+            if rq is None or typ not in ("result", "error"):
+                continue
+            if sends_when_processed(rq[1], typ):
+                return False
+            if rq[0] == "app":
+                rs, re_, b = ([int(x) for x in rq[4:7]] + [0, 0, 0])[:3]
+                if b > 0 and ((typ == "result" and rs and rq[2]) or (typ == "error" and re_ and rq[3])):
+                    return False
+    return True
+
+
+def systematic_sync(R):
+    """every request kind x {result, error} delivered from inside the request's own send, x what follows"""
+    hs = []
+    reqs = [["app", k, 1, 1, 0, 0, 0] for k in R.AKINDS] + [["lib", k] for k in R.LKINDS]
+    for rq in reqs:
+        for first in ("result", "error"):
+            if sends_when_processed(rq[1], first):
+                continue
+            other = "error" if first == "result" else "result"
+            a = [OWN, first, "plain"]
+
+            def rs(sync):
+                return with_sync(R, rq, sync)
+            fam = [
+                [rs([a])],                                                           # the reply alone
+                [rs([a]), ["dlv", 1, first, "plain"], ["dlv", 1, other, "plain"]],   # then replays, deferred
+                [rs([a, a, [OWN, other, "plain"]])],                                 # replays inside the send too
+                [rs([a]), ["dlv", 7, first, "plain"], ["dlv", 901, other, "sync"], ["dlv", 1, first, "plain"]],
+                [rs([a, [7, "result", "sync"], [901, "error", "plain"]])],           # unknown ids inside the send
+                [rs([a]), ["dlv", 1, "get", "sping"], ["dlv", 1, "set", "plain"], ["dlv", 1, first, "plain"]],
+                [rs([a, [OWN, "get", "plain"], [OWN, "set", "sync"]])],              # non-reply, same id, inside
+                [rs([[OWN, "set", "plain"], a]), ["dlv", 1, other, "plain"]],        # non-reply first, then the reply
+                [rs([[7, "result", "plain"], a])],
+                # the send also carries the (late) reply to an EARLIER request, and an earlier reply is replayed
+                [["app", "lastseen", 1, 1], ["lib", "fetch_recv"], ["dlv", 2, "error", "plain"],
+                 rs([[1, other, "plain"], [2, "error", "plain"], a]), ["dlv", 1, first, "plain"],
+                 ["dlv", 3, other, "plain"]],
+                # nothing nested for THIS request, but a later request's send carries its reply
+                [rq, with_sync(R, ["app", "glist", 1, 1, 0, 0, 0], [[1, first, "plain"], [2, other, "plain"]]),
+                 ["dlv", 1, first, "plain"], ["dlv", 2, other, "plain"]],
+            ]
+            if rq[0] == "app":
+                fam += [
+                    [with_sync(R, ["app", rq[1], 0, 1, 0, 0, 0], [a]), ["dlv", 1, other, "plain"]],   # callback missing
+                    [with_sync(R, ["app", rq[1], 1, 0, 0, 0, 0], [a]), ["dlv", 1, other, "plain"]],
+                    # a retry policy that the nested reply does not trigger; the deferred one does
+                    [with_sync(R, ["app", rq[1], 1, 1, int(first == "error"), int(first == "result"), 1],
+                               [[OWN, "get", "plain"]]), ["dlv", 1, other, "plain"], ["dlv", 1, first, "plain"],
+                     ["dlv", 1, first, "plain"]],
+                ]
+            hs += [well_shaped(R, h) for h in fam]
+    return hs
 
 
 def systematic(R):
@@ -317,34 +496,56 @@ def systematic(R):
     return hs
 
 
-def random_history(R, rng):
+def random_history(R, rng, p_sync=0.0):
     n_ops = rng.choice([3, 5, 8, 12, 16, 22])
     h, issued, answered = [], [], set()
+    retrying, kind_of = set(), {}
     allreq = [("app", k) for k in R.AKINDS] + [("lib", k) for k in R.LKINDS]
+
+    def pick_id(own=None):
+        outstanding = [m for m in issued if m not in answered]
+        y = rng.random()
+        if own is not None and y < .6:
+            return own
+        if y < .75 and outstanding:
+            return rng.choice(outstanding)
+        if y < .85 and issued:
+            return rng.choice(issued)
+        if y < .93:
+            return len(issued) + rng.randint(1, 2) + (1 if own is not None else 0)
+        return R.FOREIGN + rng.randint(0, 3)
     for _ in range(n_ops):
         outstanding = [m for m in issued if m not in answered]
         x = rng.random()
         if (x < .35 and len(outstanding) < 6) or not issued:
             o, k = rng.choice(allreq)
+            own = len(issued) + 1
+            kind_of[own] = k
+            retry = None
             if o == "app":
                 fl = (1, 1) if rng.random() < .8 else (rng.randint(0, 1), rng.randint(0, 1))
                 if rng.random() < .3:
-                    h.append(["app", k, fl[0], fl[1], rng.randint(0, 1), rng.randint(0, 1), rng.randint(0, 3)])
-                else:
-                    h.append(["app", k, fl[0], fl[1]])
+                    retry = [rng.randint(0, 1), rng.randint(0, 1), rng.randint(0, 3)]
+                    if (retry[0] or retry[1]) and retry[2]:
+                        retrying.add(own)
+                req = ["app", k, fl[0], fl[1]] + (retry or [])
             else:
-                h.append(["lib", k])
-            issued.append(len(issued) + 1)
+                req = ["lib", k]
+            sync = []
+            if rng.random() < p_sync:
+                # deliveries from inside this send; never one whose processing would send down again
+                for _ in range(rng.choice([1, 1, 1, 2, 2, 3])):
+                    m = pick_id(own)
+                    t = rng.choices(R.ITYPES, weights=[45, 35, 10, 10])[0]
+                    if m in retrying or sends_when_processed(kind_of.get(m), t):
+                        continue
+                    sync.append([m, t, rng.choice(["plain", "plain", "sync"])])
+                    if (m in issued or m == own) and t in ("result", "error"):
+                        answered.add(m)
+            issued.append(own)
+            h.append(with_sync(R, req, sync) if sync else req)
         elif x < .93:
-            y = rng.random()
-            if y < .55 and outstanding:
-                m = rng.choice(outstanding)
-            elif y < .75:
-                m = rng.choice(issued)
-            elif y < .9:
-                m = len(issued) + rng.randint(1, 2)
-            else:
-                m = R.FOREIGN + rng.randint(0, 3)
+            m = pick_id()
             t = rng.choices(R.ITYPES, weights=[45, 35, 10, 10])[0]
             h.append(["dlv", m, t, rng.choice(R.SHAPES)])
             if m in issued and t in ("result", "error"):
@@ -358,18 +559,25 @@ def random_history(R, rng):
 def exhaustive(R, maxlen, small=False, minlen=1):
     """every history of length minlen..maxlen over 2 ids"""
     if small:
-        reqs = [["app", "ping", 1, 1, 1, 1, 1], ["app", "sync", 1, 1], ["lib", "fetch_send"]]
+        reqs = [["app", "ping", 1, 1, 1, 1, 1], ["app", "sync", 1, 1], ["lib", "fetch_send"],
+                ["app", "gleave", 1, 1, 0, 0, 0, [[OWN, "error", "plain"]]]]
         dl = [["dlv", m, t, "plain"] for m in (1, 2) for t in ("result", "error", "get")]
     else:
         reqs = [["app", "ping", 1, 1], ["app", "sync", 1, 1, 0, 1, 1], ["app", "glist", 1, 1, 1, 1, 2],
-                ["lib", "fetch_send"]]
+                ["lib", "fetch_send"],
+                # answered from inside their own send
+                ["app", "lastseen", 1, 1, 0, 0, 0, [[OWN, "result", "plain"]]],
+                ["lib", "fetch_ctl", [[OWN, "error", "plain"], [1, "result", "plain"]]],
+                ["app", "sync", 1, 1, 0, 0, 0, [[OWN, "get", "plain"], [OWN, "result", "plain"], [OWN, "result", "plain"]]]]
         dl = [["dlv", m, t, "plain"] for m in (1, 2) for t in R.ITYPES]
     alpha = reqs + dl
     for n in range(minlen, maxlen + 1):
         for combo in itertools.product(alpha, repeat=n):
             if combo[0][0] == "dlv" and n > 1 and all(o[0] == "dlv" for o in combo):
                 continue
-            yield well_shaped(R, [list(o) for o in combo])
+            h = well_shaped(R, [list(o) for o in combo])
+            if drivable(R, h):
+                yield h
 
 
 def corpus(R):
@@ -395,7 +603,13 @@ def table_summary(R, tab):
     return {"routes": routes, "lib": {k: [R.LAYERS[v[0]], v[1], v[2]] for k, v in zip(R.LKINDS, tab[1])},
             "strict_reply": bool(tab[2]), "strict_iface": bool(tab[3]), "cfg_ok": bool(tab[4]),
             "kinds_not_ok": [k for k, ok in zip(R.AKINDS, tab[5]) if not ok and k in R.IN_DOMAIN],
-            "late_delete": bool(tab[6]), "late_delete_iface": bool(tab[7])}
+            "late_delete": bool(tab[6]), "late_delete_iface": bool(tab[7]),
+            "register_before_send": bool(tab[8]), "register_before_send_iface": bool(tab[9]),
+            "all_routed": bool(tab[10])}
+
+
+def known_open(ctx, key):
+    return ctx.known_match(key) if key is not None else None
 
 
 def coqchk():
@@ -418,7 +632,13 @@ def run(ctx):
     try:
         info = c08_table.regenerate(env.REPO)
         ctx.ties["translator:c08_table"] = "ok"
-        ctx.coverage["translator"] = {"leaves": info["leaves"], "callbacks_checked": info["callbacks_checked"]}
+        ctx.coverage["translator"] = {"leaves": info["leaves"], "callbacks_checked": info["callbacks_checked"],
+                                      "register_before_send": info["register_before_send"],
+                                      "register_before_send_iface": info["register_before_send_iface"]}
+        for k in ("registry_flags_protocol", "registry_flags_interface", "register_before_send_protocol",
+                  "register_before_send_interface"):
+            if k in info:
+                ctx.coverage["translator"][k] = info[k]
     except c08_table.TranslateError as e:
         ctx.ties["translator:c08_table"] = "broken: %s" % e
     ctx.prove()
@@ -434,66 +654,91 @@ def run(ctx):
 
     cases = [("corpus:" + name, h) for name, h in corpus(R)]
     cases += [("systematic", h) for h in systematic(R)]
+    cases += [("systematic-sync", h) for h in systematic_sync(R)]
     nrand = 3000 if ctx.tier == "quick" else 40000
     cases += [("random", random_history(R, ctx.rng)) for _ in range(nrand)]
+    nrs = 2000 if ctx.tier == "quick" else 30000
+    cases += [("random-sync", random_history(R, ctx.rng, p_sync=0.45)) for _ in range(nrs)]
+    undrivable = [src for src, h in cases if not drivable(R, h)]
+    if undrivable:   # a generator bug, not a finding: such a history would raise inside the rig
+        ctx.notes.append("generator: %d histories with nested deliveries that send down again were skipped" % len(undrivable))
+        cases = [(src, h) for src, h in cases if drivable(R, h)]
     if ctx.tier == "thorough":
         cases += [("exhaustive", h) for h in exhaustive(R, 4)]
         cases += [("exhaustive5", h) for h in exhaustive(R, 5, small=True, minlen=5)]
     else:
         cases += [("exhaustive", h) for h in exhaustive(R, 3)]
 
-    impl = [run_impl(R, h) for _, h in cases]
+    # the nested families once more with a real second thread delivering while the sender waits inside send()
+    cases += [(src + "-2thread", h) for src, h in cases
+              if src.split(":")[0] in ("systematic-sync", "corpus") and has_sync(R, h)]
+    impl = [run_impl(R, h, reader_thread=src.endswith("-2thread")) for src, h in cases]
     mod = None
     if model:
         raw = model.call_many("run_hist", [[enc_op(R, o) for o in h] for _, h in cases])
         mod = [dec_model(R, r) for r in raw]
 
     mismatches, oracle_fail_cases = 0, 0
-    distinct, nontrivial = set(), 0
-    kinds_cov, srcs = {}, {}
-    reported_oracle, reported_corr = set(), set()
+    distinct, nontrivial, nontrivial_sync = set(), 0, 0
+    kinds_cov, sync_cov, srcs = {}, {}, {}
+    reported_oracle, reported_corr, reported_shapes = set(), set(), set()
     for i, (src, h) in enumerate(cases):
-        srcs[src.split(":")[0]] = srcs.get(src.split(":")[0], 0) + 1
+        sk = src.split(":")[0] + ("-2thread" if ":" in src and src.endswith("-2thread") else "")
+        srcs[sk] = srcs.get(sk, 0) + 1
         key = json.dumps(h)
         if key not in distinct:
             distinct.add(key)
             n_req = 0
             touched = False
-            for o in h:
+            for _, o in expand(R, h):
                 if o[0] in ("app", "lib"):
                     n_req += 1
                 elif o[0] == "dlv" and o[1] <= n_req:
                     touched = True
             if touched:
                 nontrivial += 1
+                if has_sync(R, h):
+                    nontrivial_sync += 1
         n = 0
         kinds = {}
-        for p, o in enumerate(h):
+        for p, o in expand(R, h):
             if o[0] in ("app", "lib"):
                 n += 1
-                kinds[n] = o[1]
+                kinds[n] = (o[1], p)
             elif o[0] == "dlv" and o[1] in kinds and o[2] in ("result", "error"):
-                ck = "%s:%s" % (kinds.pop(o[1]), o[2])
+                kk, at = kinds.pop(o[1])
+                ck = "%s:%s" % (kk, o[2])
                 kinds_cov[ck] = kinds_cov.get(ck, 0) + 1
+                if at == p:   # answered from inside its own send
+                    sync_cov[ck] = sync_cov.get(ck, 0) + 1
         # property oracle on the implementation
         fails = oracle(R, h, impl[i])
         if fails:
             oracle_fail_cases += 1
             name, fkey, detail = fails[0]
-            sig = (name, fkey, detail.get("kind") if isinstance(detail, dict) else None)
-            if sig not in reported_oracle and len(reported_oracle) < 12:
+            # one report per sort of failure, not one per request kind
+            sig = (name, fkey.split(":", 1)[-1] if fkey else None,
+                   detail.get("what") if isinstance(detail, dict) else None,
+                   detail.get("kind") in R.LKINDS if isinstance(detail, dict) else None)
+            if sig not in reported_oracle and len(reported_oracle) < 20:
                 reported_oracle.add(sig)
 
                 def still(c, _name=name, _fkey=fkey):
-                    f = oracle(R, c, run_impl(R, c))
+                    f = oracle(R, c, run_impl(R, c, reader_thread=src.endswith("-2thread")))
                     return any(x[0] == _name and x[1] == _fkey for x in f)
                 small = shrink(R, h, still)
-                si = run_impl(R, small)
+                si = run_impl(R, small, reader_thread=src.endswith("-2thread"))
                 sf = [x for x in oracle(R, small, si) if x[0] == name and x[1] == fkey]
+                shape = (name, src.endswith("-2thread"),
+                         json.dumps([[o[0], "*"] + list(o[2:]) if o[0] in ("app", "lib") else o for o in small]))
+                if shape in reported_shapes and known_open(ctx, fkey) is None:
+                    continue     # the same minimal history for another request kind
+                reported_shapes.add(shape)
                 ctx.violation("oracle:" + name,
                               {"history": small, "failure": sf[0][2] if sf else detail,
                                "observed_events": si.get("events"), "registries_after": si.get("regs"),
-                               "original_history": h, "source": src}, key=fkey)
+                               "original_history": h, "source": src,
+                               "reader_thread": src.endswith("-2thread")}, key=fkey)
         # correspondence
         if mod is not None and mod[i] != impl[i]:
             mismatches += 1
@@ -503,12 +748,13 @@ def run(ctx):
 
                 def differs(c):
                     r = model.call("run_hist", [enc_op(R, o) for o in c])
-                    return dec_model(R, r) != run_impl(R, c)
+                    return dec_model(R, r) != run_impl(R, c, reader_thread=src.endswith("-2thread"))
                 small = shrink(R, h, differs)
                 sm = dec_model(R, model.call("run_hist", [enc_op(R, o) for o in small]))
-                si = run_impl(R, small)
+                si = run_impl(R, small, reader_thread=src.endswith("-2thread"))
                 ctx.violation("correspondence:C08.history",
-                              {"history": small, "model": sm, "impl": si, "original_history": h, "source": src},
+                              {"history": small, "model": sm, "impl": si, "original_history": h, "source": src,
+                               "reader_thread": src.endswith("-2thread")},
                               found_input=bool(oracle(R, small, si)))
         if i % 431 == 0:
             ctx.add_sample({"source": src, "history": h, "events": impl[i].get("events"),
@@ -519,6 +765,8 @@ def run(ctx):
     # every request kind must have been exercised with a result-first and an error-first history
     missing = [k + ":" + t for k in R.AKINDS + R.LKINDS for t in ("result", "error")
                if (k + ":" + t) not in kinds_cov]
+    missing += ["sync:" + k + ":" + t for k in R.AKINDS + R.LKINDS for t in ("result", "error")
+                if (k + ":" + t) not in sync_cov and not sends_when_processed(k, t)]
     if missing:
         ctx.notes.append("generator gap: no first-reply case for " + ", ".join(missing))
         if ctx.tier == "thorough":
@@ -534,6 +782,8 @@ def run(ctx):
     ctx.coverage["distinct_histories"] = len(distinct)
     ctx.coverage["case_sources"] = srcs
     ctx.coverage["first_reply_cases_per_kind"] = kinds_cov
+    ctx.coverage["first_reply_from_inside_own_send_per_kind"] = sync_cov
+    ctx.coverage["distinct_nontrivial_with_nested_deliveries"] = nontrivial_sync
     ctx.coverage["oracle_failing_histories"] = oracle_fail_cases
     ctx.coverage["correspondence_mismatches"] = mismatches
     ctx.coverage["exhaustive"] = False
@@ -542,11 +792,16 @@ def run(ctx):
              "re-issue the same request from inside the success/error callback, bounded), library-internal requests "
              "(key fetch from the 3 axolotl layers, key upload, group info, keep-alive ping), iq deliveries "
              "(id: outstanding / answered / not yet issued / foreign; type result|error|get|set; shape "
-             "plain|sync|server-ping) and non-iq stanzas carrying ids; corpus (the _refuted witnesses) first, "
+             "plain|sync|server-ping), non-iq stanzas carrying ids, and -- on any request -- iq stanzas delivered by "
+             "the bottom of the stack from INSIDE its send() of that request (replies to this very request, replays, "
+             "non-reply iqs with its id, stanzas for other ids); corpus (the _refuted witnesses) first, "
              "a systematic set (every kind x 9 reply patterns + 8 retry-in-callback patterns + reply-before-request + missing callbacks + "
-             "non-iq stanzas), every history of length <= 3 (quick) / 4 (thorough) over 12 ops and 2 ids, "
-             "seeded random histories with <= 6 outstanding requests; non-trivial = distinct history in which "
-             "an iq is delivered for an id issued earlier in it",
+             "non-iq stanzas), a systematic nested set (every kind x {result, error} answered from inside its own send "
+             "x 11-14 continuations), every history of length <= 3 (quick) / 4 (thorough) over 15 ops (3 of them "
+             "requests answered from inside their send) and 2 ids, seeded random histories with <= 6 outstanding "
+             "requests, without and with (45 % of the requests) nested deliveries; non-trivial = distinct history in "
+             "which an iq is delivered for an id issued earlier in it (or from inside the send of the request "
+             "that gets the id)",
         assumptions_text=ASSUME)
 
 
@@ -557,7 +812,9 @@ def replay(ctx, data):
     if not h:
         print("nothing to replay:", case)
         return 1
-    impl = run_impl(R, h)
+    impl = run_impl(R, h, reader_thread=bool(case.get("reader_thread")))
+    if case.get("reader_thread"):
+        print("(nested deliveries made by a second thread while the sender waits inside send())")
     print("history :", json.dumps(h))
     print("observed:", json.dumps(impl.get("events", impl)))
     print("registries after:", json.dumps({k: v for k, v in impl.get("regs", {}).items() if v}))
